@@ -12,7 +12,12 @@ TRUSTED = [
     "hand-written model lean/HapModel/SysEvents.lean of characteristic.py (set_value / client_update_value / notify), "
     "accessory.py (publish), accessory_driver.py (publish / async_send_event / set_characteristics / subscriptions), "
     "hap_server.py (push_event), hap_protocol.py (queue_event / _send_events), tied by this differential run",
-    "asyncio contract (modelled): callbacks run to completion on one thread; call_soon is FIFO; timers fire in deadline order",
+    "asyncio contract (modelled): callbacks run to completion on one thread; call_soon / call_soon_threadsafe are one FIFO; "
+    "timers fire in deadline order",
+    "worker-thread changes: set_value runs in a real thread (publish defers through call_soon_threadsafe); the worker's "
+    "validate+assign+notify is modelled as one atomic step (sub-statement preemption of set_value is C20's subject); "
+    "C12_quiescent is proved for histories without worker-thread changes only (C12_quiescent_partial), its full statement "
+    "is refuted by C12_quiescent_fails (finding C12:worker-change-overtaken-by-newer-change)",
     "no setter/getter callbacks on the characteristics; valid in-range integer values; one characteristic per request",
     "address-reuse hypothesis (stated in the theorems): a peer address reconnects only after the loss of its "
     "previous connection was processed",
@@ -22,7 +27,7 @@ TRUSTED = [
 
 def scripts_for(ctx: Ctx):
     rng = ctx.rng
-    scripts = list(gen.boundary_c12()) + gen.resub_family()
+    scripts = list(gen.boundary_c12()) + gen.resub_family() + gen.worker_family()
     for _ in range(ctx.n(800, 20000)):
         scripts.append(gen.random_script(rng, 30, "c12"))
     scripts += gen.exhaustive_c12(2 if ctx.quick else 4)
@@ -47,7 +52,7 @@ def run(ctx: Ctx):
 
 
 def search(ctx: Ctx):
-    scripts = list(gen.boundary_c12()) + gen.resub_family() + gen.exhaustive_c12(3) + [gen.random_script(ctx.rng, 30, "c12") for _ in range(4000)]
+    scripts = list(gen.boundary_c12()) + gen.resub_family() + gen.worker_family() + gen.exhaustive_c12(3) + [gen.random_script(ctx.rng, 30, "c12") for _ in range(4000)]
     base.evaluate(ctx, scripts, "C12", compare_model=False)
 
 
